@@ -45,15 +45,15 @@ def gen(rng, depth, hashable=False):
     r = rng.random()
     if depth == 0 or r < 0.3:
         return ["lit", rng.choice(LITS)]
-    kinds = ["tuple", "frozenset"] if hashable else ["list", "tuple", "set", "frozenset", "dict"]
+    kinds = ["tuple", "frozenset"] if hashable else ["list", "tuple", "set", "frozenset", "dict", "dict", "odict"]
     t = rng.choice(kinds); n = rng.randint(0, 4)
-    if t == "dict":
+    if t in ("dict", "odict"):
         ks = []; seen = set()
         for _ in range(n):
             k = gen(rng, depth - 1, True)
             if repr(_key(k)) not in seen:
                 seen.add(repr(_key(k))); ks.append(k)
-        return ["dict"] + [[k, gen(rng, depth - 1)] for k in ks]
+        return [t] + [[k, gen(rng, depth - 1)] for k in ks]
     if t in ("set", "frozenset"):
         ks = []; seen = set()
         for _ in range(n):
@@ -74,13 +74,13 @@ def mutate(rng, spec):
         alt = SWAP.get(spec[1])
         return ["lit", rng.choice(alt)] if alt else ["lit", "'zz'"]
     if rng.random() < 0.3 or len(spec) == 1:
-        flip = {"list": "tuple", "tuple": "list", "set": "frozenset", "frozenset": "set"}.get(spec[0])
+        flip = {"list": "tuple", "tuple": "list", "set": "frozenset", "frozenset": "set", "dict": "odict", "odict": "dict"}.get(spec[0])
         if flip and not (flip in ("list", "set") and False):
             return [flip] + spec[1:]
     if len(spec) == 1:
         return None
     i = rng.randrange(1, len(spec))
-    if spec[0] == "dict":
+    if spec[0] in ("dict", "odict"):
         k, v = spec[i]
         m = mutate(rng, v)
         return None if m is None else spec[:i] + [[k, m]] + spec[i + 1:]
@@ -102,7 +102,7 @@ def hashable_ok(spec, top=True):
         return True
     if t in ("set", "frozenset"):
         return all(_hashable(k) and hashable_ok(k) for k in spec[1:])
-    if t == "dict":
+    if t in ("dict", "odict"):
         return all(_hashable(k) and hashable_ok(k) and hashable_ok(v) for k, v in spec[1:])
     return all(hashable_ok(k) for k in spec[1:])
 
@@ -110,7 +110,7 @@ def hashable_ok(spec, top=True):
 def _hashable(spec):
     if spec[0] == "lit":
         return True
-    if spec[0] in ("list", "set", "dict"):
+    if spec[0] in ("list", "set", "dict", "odict"):
         return False
     return all(_hashable(k) for k in spec[1:])
 
@@ -120,8 +120,8 @@ def canon(spec):
     if t == "lit":
         v = eval(spec[1])
         return ("lit", type(v).__name__, repr(v))
-    if t == "dict":
-        return ("dict", tuple(sorted((canon(k), canon(v)) for k, v in spec[1:])))
+    if t in ("dict", "odict"):
+        return (t, tuple(sorted((canon(k), canon(v)) for k, v in spec[1:])))
     if t in ("set", "frozenset"):
         return (t, tuple(sorted(canon(k) for k in spec[1:])))
     return (t, tuple(canon(k) for k in spec[1:]))
@@ -131,9 +131,9 @@ def has_order(spec):
     t = spec[0]
     if t == "lit":
         return False
-    if t in ("set", "frozenset", "dict") and len(spec) > 2:
+    if t in ("set", "frozenset", "dict", "odict") and len(spec) > 2:
         return True
-    kids = spec[1:] if t != "dict" else [x for kv in spec[1:] for x in kv]
+    kids = spec[1:] if t not in ("dict", "odict") else [x for kv in spec[1:] for x in kv]
     return any(has_order(k) for k in kids)
 
 
@@ -220,7 +220,7 @@ def _kinds(s, acc):
     if s[0] != "lit":
         acc.add(s[0])
         for k in s[1:]:
-            if s[0] == "dict":
+            if s[0] in ("dict", "odict"):
                 _kinds(k[0], acc); _kinds(k[1], acc)
             else:
                 _kinds(k, acc)
